@@ -1,9 +1,9 @@
 """C04 — TOAST tiles partition the sphere, nest exactly, and are route-independent."""
 PROPERTY = "C04"
 LEVEL = "other"
-CONTRACT_MODULES = ["contracts.specfuns", "contracts.toastgeom"]
-FUNCTIONS = ["toasty.toast._div4"]
-LEMMAS = []
+CONTRACT_MODULES = ["contracts.specfuns", "contracts.lemmas_desc", "contracts.toastgeom"]
+FUNCTIONS = ["toasty.toast._div4", "toasty.toast.create_single_tile"]
+LEMMAS = ["nested_div_by_two"]
 SLOW = ()
 TRUSTED_BASE = ["pyvc VC generator; z3/cvc5", "compiled mid(a, b): symmetric great-circle midpoint"]
 ASSUMPTIONS = ["areas, partition of the sphere and numerical equality of shared points are floating-point geometry: bounded tier"]
